@@ -20,7 +20,7 @@
 (***************************************************************************)
 EXTENDS Integers, Sequences, FiniteSets, TLC
 CONSTANTS Caps,      \* set of MaxConcurrentStreams values
-          Mutant     \* 0 = faithful; 1, 2, 3 = negative controls
+          Mutant     \* 0 = as the property demands; 1, 2, 3 = negative controls; 4 = stream-id check as coded
 
 \* ---- the attribute alphabet (first element = the well-behaved value)
 MethV == {"POST", "GET", "none"}
@@ -54,14 +54,16 @@ D(k, http, grpc, code) == [k |-> k, http |-> http, grpc |-> grpc, code |-> code]
 ProtocolError == 1
 FrameSizeError == 6
 RefusedStream == 7
-IdUsed(sid) == IF Mutant = 1 THEN sid < hiSent ELSE sid <= hiSent
+\* mark = the high-water mark the stream id is compared with: the property demands hiSent (every id the client has
+\* used); http2_server.go compares with its maxStreamID (maxAdm: ids that got as far as this check)
+IdUsed(sid, mark) == IF Mutant = 1 THEN sid < mark ELSE sid <= mark
 Full == IF Mutant = 2 THEN Cardinality(open) > cap ELSE Cardinality(open) >= cap
-ServerAdmit(h) ==
+ServerAdmit(h, mark) ==
   IF h.sid = 0                THEN D("connerr", 0, 0, ProtocolError)      \* framer: HEADERS on stream 0
   ELSE IF h.big = "huge"      THEN D("connerr", 0, 0, ProtocolError)      \* framer: block > 2 x MaxHeaderListSize
   ELSE IF h.au = "dupauth"    THEN D("rst", 0, 0, ProtocolError)          \* framer: duplicate pseudo-header => stream error
   ELSE IF h.big = "big"       THEN D("rst", 0, 0, FrameSizeError)         \* operateHeaders: frame.Truncated
-  ELSE IF h.sid % 2 = 0 \/ IdUsed(h.sid)
+  ELSE IF h.sid % 2 = 0 \/ IdUsed(h.sid, mark)
                               THEN D("connerr", 0, 0, ProtocolError)      \* illegal stream id => GOAWAY + close
   ELSE IF h.au = "duphost"    THEN D("abort", 400, 13, 0)                 \* A41: several Host values
   ELSE IF h.conn              THEN D("rst", 0, 0, ProtocolError)          \* A41: Connection header
@@ -75,7 +77,7 @@ ServerAdmit(h) ==
   ELSE D("handler", 0, 0, 0)
 
 \* the request got past the framer, the truncation check and the stream-id check
-PassedIdCheck(h) == h.sid # 0 /\ h.big = "no" /\ h.au # "dupauth" /\ h.sid % 2 = 1 /\ ~IdUsed(h.sid)
+PassedIdCheck(h, mark) == h.sid # 0 /\ h.big = "no" /\ h.au # "dupauth" /\ h.sid % 2 = 1 /\ ~IdUsed(h.sid, mark)
 \* Level A: a Legal request that finds the connection at its cap (and carries nothing else the server rejects earlier)
 MustRefuse(h) == Legal(h) /\ Cardinality(open) >= cap /\ h.big = "no" /\ ~h.conn
 
@@ -84,10 +86,11 @@ MarkV(v, c, n) == IF v = "none" /\ c THEN n ELSE v
 \* the client sends a HEADERS frame with attributes h
 Req(h) ==
   /\ alive
-  /\ LET d == ServerAdmit(h) IN
+  /\ LET mark == IF Mutant = 4 THEN maxAdm ELSE hiSent   \* Mutant 4 = the code's comparison (see KNOWN_FINDINGS C12)
+         d == ServerAdmit(h, mark) IN
      /\ alive' = (d.k # "connerr")
      /\ hiSent' = IF d.k # "connerr" /\ h.sid % 2 = 1 /\ h.sid > hiSent THEN h.sid ELSE hiSent
-     /\ maxAdm' = IF PassedIdCheck(h) THEN h.sid ELSE maxAdm
+     /\ maxAdm' = IF PassedIdCheck(h, mark) THEN h.sid ELSE maxAdm
      /\ open' = CASE d.k = "connerr" -> {}
                   [] d.k = "handler" -> open \cup {h.sid}
                   [] d.k = "rst" /\ h.au = "dupauth" -> open \ {h.sid}   \* stream error closes an open stream
